@@ -21,7 +21,8 @@
 (*   undecl   find_undeclared         returns a set that is only used for   *)
 (*                                    membership tests (no iteration)       *)
 (*   trans    ext.InternationalizationExtension.parse                       *)
-(*                                    for name in referenced      UNSORTED  *)
+(*                                    for name in sorted(referenced)        *)
+(*                                    (unsorted before repair 3239c13: F30a)*)
 (*                                    (free names of a {% trans %} block;   *)
 (*                                    fixes the order of the variables dict *)
 (*                                    and so of the loads and of the        *)
@@ -30,10 +31,11 @@
 (* bounded model; with a switch of a sorted site off TLC refutes it (that   *)
 (* sorted() is load-bearing); the unsorted branch site is harmless because  *)
 (* it only overwrites keys that are already in the loads dict.  The trans   *)
-(* site is NOT sorted in the code: for programs with a trans block that     *)
-(* references two or more free names the model reports order-dependent      *)
-(* output with the code's switches (finding F30a); with trans |-> TRUE (the *)
-(* proposed repair) the invariant holds.                                    *)
+(* site was NOT sorted in the tree this check was first run on: for programs *)
+(* with a trans block that references two or more free names the model      *)
+(* reports order-dependent output with trans |-> FALSE (finding F30a, seen   *)
+(* on the real code as seed-dependent generated source); with trans |-> TRUE *)
+(* (the repair, now in the code) the invariant holds.                        *)
 (*                                                                         *)
 (* Names are numbers (the harness maps them to identifiers whose string     *)
 (* order is the numeric order and whose hash order varies with the seed).   *)
@@ -53,7 +55,7 @@ CONSTANTS Stmts,        \* the statement alphabet
           Private,      \* names that start with an underscore (not exported)
           Switches      \* set of switch records [branch, dump, deps, assign, public, trans] to explore
 
-CodeSwitches == [branch |-> FALSE, dump |-> TRUE, deps |-> TRUE, assign |-> TRUE, public |-> TRUE, trans |-> FALSE]
+CodeSwitches == [branch |-> FALSE, dump |-> TRUE, deps |-> TRUE, assign |-> TRUE, public |-> TRUE, trans |-> TRUE]
 \* every site is sorted, except possibly the branch site (it does not matter)
 SortedAsInCode(s) == s.dump /\ s.deps /\ s.assign /\ s.public /\ s.trans
 
